@@ -453,6 +453,10 @@ class Characteristic:
         elif not self.getter_callback:
             # Only cache if there is no getter_callback
             self._to_hap_cache_with_value = hap_rep
+            if HAP_REPR_VALUE in hap_rep and hap_rep[HAP_REPR_VALUE] is not self._value:
+                # The value was changed from another thread while the
+                # representation was being built, do not keep a stale copy
+                self._to_hap_cache_with_value = None
         return hap_rep
 
     @classmethod
